@@ -936,7 +936,7 @@ fn c06_strategy() -> impl Strategy<Value = C06Case> {
 
 pub const C06_LABELS: [&str; 6] = ["different_partitions", "values_changed_in_interval", "zero_steps_inserted", "state_changes", "ended_compared", "merged_state"];
 
-fn c06_judge(c: &C06Case, obs: &mut Obs) -> Result<(), String> {
+pub fn c06_judge(c: &C06Case, obs: &mut Obs) -> Result<(), String> {
     let mut a = c.desc.build();
     let mut b = c.desc.build();
     for (n, seg) in c.segs.iter().enumerate() {
@@ -1106,4 +1106,5 @@ pub fn c06(run: &mut Run) {
         run.tier.pick(20_000, 500_000),
         c06_train_judge,
     );
+    crate::fuzzdrv::campaign(run, "fz_c06", 1_600_000);
 }
